@@ -38,6 +38,14 @@ class Reject(RefError):
 
 
 PREFIX = {'FIXED': 0, 'LLVAR': 2, 'LLLVAR': 3}
+
+
+class _Unspecified:
+    def __repr__(self):
+        return '<unspecified>'
+
+
+UNSPECIFIED = _Unspecified()     # a value the documentation does not define (never compared)
 DIGITS = '0123456789'
 
 
@@ -324,6 +332,12 @@ def _walk(data, cfg, enc, hex_bitmap, strict):
         except UnicodeError:
             raise Reject('DE%d undecodable' % bit)
         if proc == 'PAN':
+            if len(text) < 10:
+                # masking is defined for card numbers of 10 or more characters only
+                if strict:
+                    raise Reject('masked element shorter than 10 characters')
+                out['DE%d' % bit] = UNSPECIFIED
+                continue
             text = mask(text)
         elif proc == 'PAN-PREFIX':
             text = text[:9]
